@@ -26,6 +26,7 @@ Missing == -2
 Undef   == -3
 
 IsVal(v) == v >= 0              \* a proper (non-None, present) value
+Ran(f) == {f[x] : x \in DOMAIN f}
 
 (***************************************************************************)
 (* Query AST.  Atoms are records with the same fields for every kind so    *)
